@@ -209,6 +209,8 @@ pub fn run_history(case: &BudgetCase, stall: Option<(u64, u64)>, with_idle: bool
                 // only durable state survives: the work-time account restarts from what the
                 // snapshot records
                 let durable = crate::wire::decode_snapshot(&bytes).map(|d| d.execution_time).unwrap_or(0);
+                // what the authorizer itself says it has spent when it is saved
+                let spent = a.execution_time().map(|d| d.as_nanos().min(u64::MAX as u128) as u64).unwrap_or(0);
                 match LibAuthorizer::from_raw_snapshot(&bytes).map_err(|e| format!("{e:?}")) {
                     Ok(b) => {
                         a = b;
@@ -217,7 +219,7 @@ pub fn run_history(case: &BudgetCase, stall: Option<(u64, u64)>, with_idle: bool
                     }
                     Err(e) => return Err(format!("snapshot/restore failed: {e}")),
                 }
-                continue;
+                format!("saved recorded={durable} spent={spent}")
             }
             Call::Run => match catch_unwind(AssertUnwindSafe(|| a.run())) {
                 Ok(Ok(_)) => "ok".to_string(),
@@ -285,6 +287,16 @@ impl BudgetEngine {
             stats.bump(&format!("c10.result.{}", o.result.split(' ').next().unwrap_or("")));
             if o.result.starts_with("panic") {
                 push("panic", format!("{} ;; {}", o.result, ctx(o)));
+                continue;
+            }
+            if o.call == "SnapshotRestore" {
+                // durability of the account: the time a saved authorizer has spent is in the
+                // snapshot, or the budget starts afresh in the process that restores it
+                let num = |k: &str| o.result.split(k).nth(1).and_then(|x| x.split(' ').next()).and_then(|x| x.parse::<u64>().ok()).unwrap_or(0);
+                let (recorded, spent) = (num("recorded="), num("spent="));
+                if recorded != spent {
+                    push("budget-forgotten-by-snapshot", format!("budget=time the snapshot records {recorded} ns, the authorizer had spent {spent} ns ;; {}", ctx(o)));
+                }
                 continue;
             }
             let with_limits = o.call.starts_with("AuthorizeWithLimits");
@@ -381,7 +393,8 @@ impl Engine for BudgetEngine {
         let k = w.iterations;
         let f_last = w.facts.len() as u64;
         let f_mid = w.fact_counts.first().cloned().unwrap_or(f_last as usize) as u64;
-        let per_tick_ns = *rng.pick(&[0u64, 1, 1000, 1_000_000]);
+        // from a clock too coarse to see the work to one that needs seconds per unit of work
+        let per_tick_ns = *rng.pick(&[0u64, 1, 1000, 1_000_000, 1_000_000, 1_000_000_000, 1_500_000_000]);
         let n_rules = auth.rules.len() as u64;
         let ticks_est = n_rules * (k + 1) + 3;
         let big = u64::MAX;
